@@ -82,8 +82,11 @@ def run_case(ck, rng, stats, samples):
     for k in range(nc):
         name = b'X-H%d' % k
         val = gen_text(rng)
-        kind = rng.randrange(5)
-        if kind == 0:
+        kind = rng.randrange(6)
+        if kind == 5:
+            # more than nine groups: \\10, \\11, ... are references like any other
+            pat, flags = b'^' + b'(.)?' * 12, rng.choice([b'', b'u'])
+        elif kind == 0:
             pat, flags = b'(.*)', b''
         elif kind == 1:
             pat, flags = b'^(.)(.*)$', b''
@@ -105,9 +108,9 @@ def run_case(ck, rng, stats, samples):
             if r < 3:
                 parts.append(rng.choice([b'lit', b'a b', b'.', b'$', b'{x}', b'1', b'\\\\'.replace(b'\\\\', b'\\') + b'z']))
             elif r < 5:
-                parts.append(b'\\%d' % rng.randrange(0, 4))
+                parts.append(b'\\%d' % rng.choice([0, 1, 2, 3, 0, 1, 2, 3, 9, 10, 11, 12, 13]))
             elif r == 5:
-                parts.append(b'\\%d.%d' % (rng.randrange(0, nc + 1), rng.randrange(0, 3)))
+                parts.append(b'\\%d.%d' % (rng.randrange(0, nc + 1), rng.choice([0, 1, 2, 0, 1, 2, 10, 12])))
             elif r == 6:
                 parts.append(b'\\%d\\.' % rng.randrange(0, 3))
             elif r == 7 and rng.randrange(3) == 0:
@@ -131,7 +134,7 @@ def run_case(ck, rng, stats, samples):
         templates.append(t)
     m1 = rng.choice([b'macro value', b'mv', b'1.5'])
     use_D = rng.randrange(3) == 0
-    action = rng.choice(['exec', 'exec', 'label', 'addhdr', 'command', 'ncommand'])
+    action = rng.choice(['exec', 'exec', 'label', 'addhdr', 'command', 'ncommand', 'rewrite_exec'])
     if action == 'addhdr':
         # add-header strings are not expanded at parse time: a default macro there is an error and would be unused
         templates = [templates[0].replace(b'${mac}', b'mac')]
@@ -151,7 +154,13 @@ def run_case(ck, rng, stats, samples):
     strs = b' '.join(mdrun.conf_quote(t) for t in templates)
     uses_m1 = any(b'${mac}' in t for t in templates)
     pre = (b'mac = "%s"\n' % (b'file value' if use_D else m1)) if uses_m1 else b''
-    if action == 'exec':
+    if action == 'rewrite_exec':
+        # an earlier action of the rule replaces the very header (or the labels) the captures were taken from: the captured text is
+        # what was matched, whatever happens to the header afterwards
+        rw = rng.choice([b'add-header "X-H0" "replaced value"', b'add-header "X-H%d" "r"' % (nc - 1), b'label "seen"', b'add-header "X-H0" "a" add-header "X-H0" "b"'])
+        rule = b'match %s %s exec { "%s" %s }' % (cond_text, rw, helper.encode(), strs)
+        action = 'exec'
+    elif action == 'exec':
         rule = b'match %s exec { "%s" %s }' % (cond_text, helper.encode(), strs)
     elif action == 'command':
         rule = b'match %s and command { "%s" %s } flags "T"' % (cond_text, helper.encode(), strs)
@@ -168,7 +177,7 @@ def run_case(ck, rng, stats, samples):
     name = sb.add(src, 'new', text)
     path = os.path.join(src, 'new', name).encode()
     args = ['-D', 'mac=' + m1.decode()] if (use_D and uses_m1) else []
-    rc, out, err = sb.run(args, conf=conf, env={'VERIF_HELPER_OUT': hout})
+    rc, out, err = sb.run(args, conf=conf, env={'VERIF_HELPER_OUT': hout, 'MALLOC_PERTURB_': '90'})      # freed memory is overwritten at once
     stats['runs'] += 1
     # ---- model / reference prediction -----------------------------------------------------------------
     model = common.model_exe()
